@@ -4,7 +4,39 @@ from vf.props import reg, COMMON_ASSUMPTIONS
 reg(Prop(
     'C08',
     [Harness('c08_grid', parts=16, slices=3)],
-    rule='TODO',
-    assumptions=COMMON_ASSUMPTIONS,
-    exhaustive_spaces=[],
+    rule='Oracle: literal nested for-loops over std::array<long long,N> (x fastest) and a std::map<position,index> as grid '
+         'model. For N in {1,2,3} and every size with extents in 0..E (E=4 in quick = the quantifier of the property; E=5 in '
+         'thorough): offset<u8/u32/u64> of every in-range position against the running index of the model enumeration '
+         '(row-major, injective, inside [0,content)); math::dim::contents/content(); object(size,function) call set, storage '
+         'order, object(size,value); at_optional (mutable and const) for every position of [-1,E+1]^N with -1 as unsigned wrap '
+         '(presence, identity of the referenced cell, value); make_pos_range of every size (set, multiplicity, order, size()); '
+         'pos_range<u8/u32/u64> for all (min,sup) with components in 0..E+1 (set, multiplicity, size(); iteration capped at '
+         'expected+600 steps -> "runaway"); pos_ref_range and pos_ref_crange for every in-grid (min,sup) of every size '
+         '(positions, address of the referenced cell, writes through the mutable references land exactly in the box) and for '
+         'the whole grid (order judged); signed (min,sup) from [-1,E+1]^N clamped with clamped_min/clamped_sup_signed and '
+         'iterated with pos_ref_crange (all pairs for N<=2 and in thorough, 20000 seeded pairs per size for N=3 in quick); '
+         'clamped_min<i8,i32,i64>, clamped_sup<u8,u32,u64>, clamped_sup_signed on a lattice {min,min+1,-2..6,max-1,max}^N x every '
+         'size; fill, map (lvalue/rvalue), apply with 1-3 grids of equal size and with unequal sizes (neighbouring sizes, '
+         'reversed extents = same content, null) -> empty grid; resize (lvalue and rvalue) between all pairs of sizes, cell by '
+         'cell. Result grids are read through their storage iterators (k-th element = k-th model position) and through '
+         'at_optional. evaluations = judged library results (one range, one clamp call, one at_optional, one result grid ...); '
+         'a case for the distinct count is one (entry, size[, min]) batch, hashed canonically. Callbacks given to the library '
+         'carry a call budget (cells+600) so that a non-terminating range inside the library is a classified violation.',
+    assumptions=COMMON_ASSUMPTIONS + [
+        'order inside sub-ranges, in_range/in_range_dim, min_less_sup, range_dim, range_size, end_position and next_position '
+        'called directly are observed only (the statement judges them through the ranges, size() and at_optional)',
+        'offset is judged for in-range positions only; get_unsafe is never called outside the grid (documented undefined)',
+        'pos_range<u8>::size() / range_dim<u8> do not compile (integer promotion inside range_dim), so size() is judged for '
+        'u32/u64 only; iteration is judged for u8 too',
+    ],
+    exhaustive_spaces=[
+        'all sizes with every extent in 0..4 for N in {1,2,3} (quick and thorough; thorough also 0..5)',
+        'offset: all in-range positions of all those sizes, size types u8/u32/u64',
+        'at_optional: all positions of [-1,5]^N for all sizes (mutable and const)',
+        'pos_range: all (min,sup) with components in 0..5, N in {1,2,3}, size types u8/u32/u64',
+        'pos_ref_range / pos_ref_crange: all (min,sup) with 0 <= min,sup <= size for all sizes',
+        'clamped ranges: all signed (min,sup) in [-1,5]^N x [-1,5]^N for N <= 2 (N = 3: thorough only)',
+        'resize: all ordered pairs of sizes, N in {1,2,3}',
+        'fill/map/apply: all sizes',
+    ],
 ))
